@@ -13,14 +13,16 @@ open Otel.C15 Otel.C15.Lemmas
 
 /-- Main theorem (trace provider): for every pool of processors (recording, simple/batch around a recording or a
 nil exporter) and EVERY op sequence (register, unregister — also of processors never registered or registered
-several times —, Shutdown/ForceFlush with live or done contexts, tracer creation, span start/end in any order,
-direct processor shutdown) that does not trigger known finding F26, the model's run passes the whole reference
-oracle `Spec.TP.check`: all four clauses at once. The next four theorems are its projections. -/
-theorem tp_lifecycle_partial (kinds : List TP.PKind) (ops : List TP.Op) (h : ¬ Spec.TP.F26_applies ops) :
+several times —, Shutdown/ForceFlush with live or done contexts and, for a Shutdown with a done context, EVERY
+resolution `Choice` of the races inside the stock processors: context error reported or not, how much of the
+drain / whether the exporter's Shutdown has happened when the call returns —, tracer creation, span start/end in
+any order, direct processor shutdown), the model's run passes the whole reference oracle `Spec.TP.check`: all four
+clauses at once, no exclusion (former finding F26 is repaired in the code, f6b676c, and in the model). The next
+four theorems are its projections. What a raced Shutdown still owes when it returns arrives asynchronously:
+`PropsLag.tp_lifecycle_async`. -/
+theorem tp_lifecycle (kinds : List TP.PKind) (ops : List TP.Op) :
     Spec.TP.check kinds ops (TP.run kinds ops) = Spec.Fails.none := by
-  have hf : Spec.TP.f26From {} ops = false := by
-    simpa [Spec.TP.F26_applies] using h
-  have := checkFrom_none (kinds := kinds) ops (TP.init kinds) {} (inv_init kinds) hf
+  have := checkFrom_none (kinds := kinds) ops (TP.init kinds) {} (inv_init kinds)
   have hs : snapOf (TP.init kinds) = fun _ => {} := by
     funext i; simp [snapOf, TP.init]
   rw [hs] at this
@@ -29,32 +31,34 @@ theorem tp_lifecycle_partial (kinds : List TP.PKind) (ops : List TP.Op) (h : ¬ 
 /-- Clause "ended spans are delivered to exactly the processors currently registered (unregistering one that was
 never registered changes nothing)": at every step every recording processor sees exactly `multiplicity` OnStart /
 OnEnd calls for an SDK span and none otherwise, a simple processor's exporter has received exactly the spans
-delivered while it was alive, a batch processor's exporter never more and exactly those at every flush point —
-where the registered multiset is the reference fold `Spec.TP.memStep` (unregister of a non-member is the identity). -/
-theorem membership_exact (kinds : List TP.PKind) (ops : List TP.Op) (h : ¬ Spec.TP.F26_applies ops) :
+delivered while it was alive, a batch processor's exporter never more and exactly those at every flush point (a
+Shutdown with a done context: some of them when it returns) — where the registered multiset is the reference fold
+`Spec.TP.memStep` (unregister of a non-member is the identity; any Shutdown empties it). -/
+theorem membership_exact (kinds : List TP.PKind) (ops : List TP.Op) :
     (Spec.TP.check kinds ops (TP.run kinds ops)).m = false := by
-  rw [tp_lifecycle_partial kinds ops h]; rfl
+  rw [tp_lifecycle kinds ops]; rfl
 
 /-- Clause "each processor and exporter is shut down exactly once however often Shutdown or Unregister is called":
-a recording processor sees exactly one Shutdown per registration that ends (unregistration or provider shutdown)
-and none otherwise; the exporter of a stock processor has seen exactly one Shutdown iff its processor was taken
-out of service (unregistered while registered, provider Shutdown while registered, or shut down directly), never
-two — over all op sequences, i.e. all interleavings of any number of Shutdown/Unregister callers. -/
-theorem shutdown_once (kinds : List TP.PKind) (ops : List TP.Op) (h : ¬ Spec.TP.F26_applies ops) :
+a recording processor sees exactly one Shutdown per registration that ends (unregistration or provider shutdown —
+also with a done context) and none otherwise; the exporter of a stock processor has seen exactly one Shutdown iff
+its processor was taken out of service (unregistered while registered, provider Shutdown while registered, or shut
+down directly), never two; after a provider Shutdown with a done context at most one (the call may return before
+its goroutine got there) and no later API call changes that — over all op sequences, i.e. all interleavings of any
+number of Shutdown/Unregister callers. -/
+theorem shutdown_once (kinds : List TP.PKind) (ops : List TP.Op) :
     (Spec.TP.check kinds ops (TP.run kinds ops)).o = false := by
-  rw [tp_lifecycle_partial kinds ops h]; rfl
+  rw [tp_lifecycle kinds ops]; rfl
 
 /-- Clause "after Shutdown has returned the provider hands out no-op tracers, flush and shutdown are harmless
 no-ops returning nil": result of every Tracer/ForceFlush/Shutdown call and the ForceFlush calls seen by recording
 processors are those of the reference (after Shutdown: no-op tracer, nil, no callback). Together with
 `membership_exact` (multiset empty after Shutdown) nothing is delivered or exported afterwards. -/
-theorem after_shutdown_noop (kinds : List TP.PKind) (ops : List TP.Op) (h : ¬ Spec.TP.F26_applies ops) :
+theorem after_shutdown_noop (kinds : List TP.PKind) (ops : List TP.Op) :
     (Spec.TP.check kinds ops (TP.run kinds ops)).a = false := by
-  rw [tp_lifecycle_partial kinds ops h]; rfl
+  rw [tp_lifecycle kinds ops]; rfl
 
 /-- Clause "no call panics or blocks": every op is enabled in every state of every provider model — the run has
-one observation per op and none is a crash — unconditionally (also in F26 histories, also for processors around
-a nil exporter). -/
+one observation per op and none is a crash — also for processors around a nil exporter. -/
 theorem lifecycle_total (kinds : List TP.PKind) (ops : List TP.Op) :
     (TP.run kinds ops).length = ops.length ∧ ∀ o ∈ TP.run kinds ops, o.res ≠ .crash := by
   refine ⟨runFrom_length _ _, ?_⟩
@@ -101,49 +105,48 @@ theorem mp_lifecycle_total (kinds : List MP.RKind) (ops : List MP.Op) :
       cases op <;> simp [MP.step] <;> repeat' split <;> simp_all
     · exact ih _ o ho
 
-/-! ### Known finding F26 -/
+/-! ### Non-vacuity; former finding F26 -/
 
-/-- the witness script: one recording processor, a tracer, `Shutdown(cancelled)`, a span on the old tracer,
-`Shutdown(background)`, another span -/
+/-- the former F26 witness script: one recording processor, a tracer, `Shutdown(cancelled)`, a span on the old
+tracer, `Shutdown(background)`, another span.  With the repaired Shutdown (f6b676c) the processor is shut down by
+the first call although the context is done (result nil: a user processor that returns nil), and receives nothing
+afterwards; the oracle passes.  (Before the repair: result context error, `s = 0`, `e = 2` at the end.) -/
 def f26Kinds : List TP.PKind := [.recd]
 def f26Ops : List TP.Op :=
-  [.tracer 0, .reg 0, .shutdown .cancelled, .span 0, .shutdown .bg, .span 0]
+  [.tracer 0, .reg 0, .shutdown .cancelled {}, .span 0, .shutdown .bg {}, .span 0]
 
-/-- F26 as the model (= the code) behaves: Shutdown with an already-cancelled context returns the context error
-having shut down nothing; the second Shutdown returns nil; the processor still receives both later spans and has
-never seen Shutdown.  The oracle fails clauses membership, once — and `F26_applies` holds. -/
-theorem shutdown_cancelled_ctx_skips_processors_witness :
-    Spec.TP.F26_applies f26Ops ∧
-    (TP.run f26Kinds f26Ops).map (fun o => (o.res, (o.snap 0).e, (o.snap 0).s)) =
-      [(.sdk, 0, 0), (.none, 0, 0), (.err true false false, 0, 0), (.none, 1, 0), (.ok, 1, 0), (.none, 2, 0)] ∧
-    (Spec.TP.check f26Kinds f26Ops (TP.run f26Kinds f26Ops)).m = true ∧
-    (Spec.TP.check f26Kinds f26Ops (TP.run f26Kinds f26Ops)).o = true := by
-  refine ⟨by decide, by decide, by decide, by decide⟩
-
-/-- the full statement (no exclusion) — refuted for the current code by the witness above -/
-def tp_lifecycle_full_statement : Prop :=
-  ∀ (kinds : List TP.PKind) (ops : List TP.Op), Spec.TP.check kinds ops (TP.run kinds ops) = Spec.Fails.none
-
-theorem tp_lifecycle_full_statement_refuted : ¬ tp_lifecycle_full_statement := by
-  intro h
-  have := h f26Kinds f26Ops
-  have hw := shutdown_cancelled_ctx_skips_processors_witness.2.2.1
-  rw [this] at hw
-  exact absurd hw (by decide)
-
-/-! ### Non-vacuity -/
-
-/-- a non-trivial F26-free script: duplicate registration, unregistration of a never-registered processor, simple
-processor around nil, batch processor, spans before/after unregistering and after Shutdown -/
-def exKinds : List TP.PKind := [.recd, .simpleNil, .batchRec, .simpleRec]
-def exOps : List TP.Op :=
-  [.tracer 0, .reg 0, .reg 2, .reg 0, .reg 1, .unreg 3, .span 0, .start 0 1, .unreg 0, .end_ 1, .flush .cancelled,
-   .flush .bg, .pshut 1, .shutdown .far, .span 0, .tracer 1, .span 1, .shutdown .cancelled, .flush .bg]
-
-example : ¬ Spec.TP.F26_applies exOps := by decide
-example : Spec.TP.check exKinds exOps (TP.run exKinds exOps) = Spec.Fails.none := by decide
-example : ((TP.run exKinds exOps).map fun o => ((o.snap 0).e, (o.snap 0).s, (o.snap 2).n)).getLast? = some (3, 2, 2) := by
+example : (TP.run f26Kinds f26Ops).map (fun o => (o.res, (o.snap 0).e, (o.snap 0).s)) =
+    [(.sdk, 0, 0), (.none, 0, 0), (.ok, 0, 1), (.none, 0, 1), (.ok, 0, 1), (.none, 0, 1)] := by decide
+example : Spec.TP.check f26Kinds f26Ops (TP.run f26Kinds f26Ops) = Spec.Fails.none := by decide
+/-- the oracle rejects the pre-repair behaviour (what the reverted fix produces): clauses membership and once -/
+example : (Spec.TP.check f26Kinds f26Ops
+    [{ res := .sdk, snap := fun _ => {} }, { res := .none, snap := fun _ => {} },
+     { res := .err true false false, snap := fun _ => {} }, { res := .none, snap := fun _ => { a := 1, e := 1 } },
+     { res := .ok, snap := fun _ => { a := 1, e := 1 } }, { res := .none, snap := fun _ => { a := 2, e := 2 } }]).m = true ∧
+    (Spec.TP.check f26Kinds f26Ops
+    [{ res := .sdk, snap := fun _ => {} }, { res := .none, snap := fun _ => {} },
+     { res := .err true false false, snap := fun _ => {} }, { res := .none, snap := fun _ => { a := 1, e := 1 } },
+     { res := .ok, snap := fun _ => { a := 1, e := 1 } }, { res := .none, snap := fun _ => { a := 2, e := 2 } }]).o = true := by
   decide
+
+/-- a non-trivial script: duplicate registration, unregistration of a never-registered processor, simple processor
+around nil, batch processor, spans before/after unregistering, a Shutdown with a cancelled context whose race the
+batch processor loses (context error; one of its two queued spans exported when the call returns, exporter not yet
+shut down), then spans on an old and on a new (no-op) tracer, further Shutdown / ForceFlush -/
+def exKinds : List TP.PKind := [.recd, .simpleNil, .batchRec, .simpleRec]
+def raceLost : Choice := { e := fun _ => true, k := fun i => if i = 3 then 1 else 0, x := fun _ => 1 }
+def exOps : List TP.Op :=
+  [.tracer 0, .reg 0, .reg 2, .reg 0, .reg 1, .reg 3, .unreg 7, .span 0, .start 0 1, .unreg 0, .end_ 1,
+   .flush .cancelled, .flush .bg, .span 0, .span 0, .pshut 1, .shutdown .cancelled raceLost, .span 0, .tracer 1,
+   .span 1, .shutdown .far {}, .flush .bg]
+
+example : Spec.TP.check exKinds exOps (TP.run exKinds exOps) = Spec.Fails.none := by decide
+/-- result of the raced Shutdown, and at the end: recording processor 5 OnEnd / 2 Shutdown; batch exporter 3 of 4
+spans, not shut down; simple exporter 4 spans, shut down -/
+example : ((TP.run exKinds exOps).map (·.res))[16]? = some (.err true false false) := by decide
+example : ((TP.run exKinds exOps).map fun o =>
+    ((o.snap 0).e, (o.snap 0).s, (o.snap 2).n, (o.snap 2).s, (o.snap 3).n, (o.snap 3).s)).getLast? =
+    some (5, 2, 3, 0, 4, 1) := by decide
 
 /-! ### Logger provider -/
 
@@ -286,14 +289,12 @@ theorem mp_silent_after_shutdown (kinds : List MP.RKind) (pre post : List MP.Op)
   · rw [hdrop]; exact h2
 
 /-- All three providers at once: every op sequence (= every interleaving at method granularity) over every
-component pool passes its reference oracle — the trace provider outside known finding F26, the logger and meter
-providers unconditionally and for every resolution of the done-context races. -/
+component pool passes its reference oracle, unconditionally and for every resolution of the done-context races. -/
 theorem lifecycle_all_providers :
-    (∀ (kinds : List TP.PKind) (ops : List TP.Op), ¬ Spec.TP.F26_applies ops →
-      Spec.TP.check kinds ops (TP.run kinds ops) = Spec.Fails.none) ∧
+    (∀ (kinds : List TP.PKind) (ops : List TP.Op), Spec.TP.check kinds ops (TP.run kinds ops) = Spec.Fails.none) ∧
     (∀ (kinds : List LP.LKind) (ops : List LP.Op), Spec.LP.check kinds ops (LP.run kinds ops) = Spec.Fails.none) ∧
     (∀ (kinds : List MP.RKind) (ops : List MP.Op), Spec.MP.check kinds ops (MP.run kinds ops) = Spec.Fails.none) :=
-  ⟨tp_lifecycle_partial, lp_lifecycle, mp_lifecycle⟩
+  ⟨tp_lifecycle, lp_lifecycle, mp_lifecycle⟩
 
 /-! ### Non-vacuity (logger and meter provider) -/
 
